@@ -325,6 +325,13 @@ fn terminate(e: Exec, term: &str) -> Result<Option<bool>, String> {
 fn seq_case(ctx: &mut Ctx, rng: &mut Rng, i: u64) {
     run::begin_case();
     let dir = ctx.scratch("c16");
+    // the caller's own environment is not constant over the life of the process: "inherited" means as it is now
+    std::env::set_var("VERIF_C16_EPOCH", i.to_string());
+    if i % 3 == 0 {
+        std::env::remove_var("VERIF_C16_SOMETIMES");
+    } else {
+        std::env::set_var("VERIF_C16_SOMETIMES", format!("v{}", i % 7));
+    }
     let calls = gen_calls(rng, &dir);
     let term = TERMS[rng.below(TERMS.len() as u64) as usize];
     // the child reports itself and (flag i) what it can read from stdin
